@@ -54,7 +54,7 @@ type Proof struct {
 }
 
 func (p *Proof) IsValid(public Public) bool {
-	if p == nil {
+	if p == nil || p.Commitment == nil || public.Prover == nil {
 		return false
 	}
 	if !arith.IsValidNatModN(public.Prover.N(), p.U, p.V) {
@@ -110,6 +110,11 @@ func (p *Proof) Verify(group curve.Curve, hash *hash.Hash, public Public) bool {
 	}
 
 	prover := public.Prover
+
+	// Z is re-encrypted below: it must be a plaintext of the prover's key (EncWithNonce panics otherwise)
+	if !arith.IsInPlaintextRange(prover.N(), p.Z) {
+		return false
+	}
 
 	e, err := challenge(hash, group, public, p.Commitment)
 	if err != nil {
